@@ -7,6 +7,8 @@ over vectors of *concrete length* whose elements are symbolic).  Anything
 without a summary returns an unconstrained value of its type ("havoc") and is
 listed in the evidence.
 """
+import os
+import sys
 import re
 import time
 import z3
@@ -264,6 +266,8 @@ class Executor:
         self.solver.push()
         self.solver.add(*conds)
         r = self.solver.check()
+        if os.environ.get("MIRSYM_SLOW") and time.time() - t0 > float(os.environ["MIRSYM_SLOW"]):
+            sys.stderr.write("SLOW QUERY %.1fs %s: %s\n" % (time.time() - t0, r, "\n   ".join(str(c)[:300] for c in conds[-12:])))
         model = None
         if r == z3.sat:
             m = self.solver.model()
@@ -971,6 +975,9 @@ class Executor:
                     finally:
                         self.depth -= 1
                     return outs
+        if re.search(r" as Iterator>::next$", callee.strip()):
+            # an unconstrained iterator never ends: stop instead of unrolling it to the loop bound
+            raise PathEnd("iterator not modelled: %s" % normalize_callee(callee)[:120])
         self.stats.havoc.add(normalize_callee(callee))
         if dest_ty is None:
             return [(st, None)]
